@@ -1,4 +1,5 @@
 import Driver.C20
+import Driver.C15
 import Driver.C16
 import Driver.C12
 import Driver.C14
@@ -12,6 +13,7 @@ in `St`. -/
 open Driver
 
 structure St where
+  c15 : C15.State := {}
   c14 : C14.State := {}
   c09 : C09.State := {}
   c07 : C07.State := {}
@@ -21,6 +23,7 @@ structure St where
 def step (st : St) (line : String) : St × String :=
   match (line.trimAscii.toString.splitOn " ").filter (· ≠ "") with
   | "c20" :: rest => (st, C20.handle rest)
+  | "c15" :: rest => let (s', o) := C15.step st.c15 rest; ({ st with c15 := s' }, o)
   | "c16" :: rest => (st, C16.handle rest)
   | "c12" :: rest => (st, C12.handle rest)
   | "c14" :: rest => let (s, o) := C14.step st.c14 rest; ({ st with c14 := s }, o)
